@@ -1,4 +1,5 @@
 import OdmlModel.Model.Conv
+import OdmlModel.Model.ConvText
 import Driver.Util
 import Driver.Loop
 open Lean Drv
@@ -126,6 +127,7 @@ def handle (j : Json) : Except String Json := do
           | some u => jchars u
           | none => Json.null)
   | "outname" => pure (jchars (outName (← getStr j "s").toList))
+  | "decl" => pure (jchars (dropDecl (← getStr j "s").toList))
   | "tables" =>
     pure (jobj [("version_map", jarr (versionMap.map (fun p => jarr [jstr p.1, jstr p.2])))])
   | _ => throw s!"unknown op {op}"
